@@ -31,3 +31,12 @@ From Rosmar Require Import KvTrace.
 Theorem C05_holds_with_purge : forall c : scase, wf_case c -> chk_C05_full (c, srun c) = true.
 Proof. exact C05_full_sound. Qed.
 Print Assumptions C05_holds_with_purge.
+
+(* removal by expiry is a removal: in every history of the model, every document that a firing of the expiry
+   timer removes satisfies what C05 says of Delete - no body, no expiry, and of its xattrs exactly the system
+   ones (chk_step_expiry applies the row rule of Delete to each such document; the same checker runs on the
+   implementation's traces) *)
+From Rosmar Require Import KvExpiry.
+Theorem C05_expiry_is_a_removal : forall c : scase, wf_case c -> chk_expiry_kv chk_row_C05 (c, srun c) = true.
+Proof. exact C05_expiry_sound. Qed.
+Print Assumptions C05_expiry_is_a_removal.
